@@ -768,6 +768,9 @@ class Interp:
         return cmpop(o, a, b)
 
     def contains(self, container, item, line):
+        hook = self.unit.contains_hook(self, container, item, line)
+        if hook is not NotImplemented:
+            return hook
         if isinstance(container, (list, tuple, set, frozenset, dict, str)) and is_concrete(item) and is_concrete(container):
             return item in container
         if isinstance(container, (list, tuple, set, frozenset)):
@@ -1285,6 +1288,10 @@ class Interp:
                 r = self.unit.np.f_around(self, line, a0)
                 return z3.ToInt(r) if is_sym(r) else r
         if name == 'type':
+            if isinstance(a0, SObj):
+                home = self.unit.CLASS_HOME.get(a0._cls)
+                if home:
+                    return ClassRef(home, a0._cls)
             return SObj('type', of=a0)
         raise Unsupported(f'builtin {name}')
 
